@@ -73,6 +73,8 @@ var weightMetas = []string{
 	"weight=abc", "weight=", "weight=3&weight=9", "weight=+4", "weight= 5", "weight=2;x=1", "weight=%zz", "state=active&weight=6",
 	"group=a&weight=2&group=b", "weight=1.5", "weight=0x10", "weight=00002", "Weight=9", "tps=5",
 	"icmp_weight=0&weight=3", "xweight=-1&weight=2", "lowweight=7", "weight_class=4&weight=0", "myweight=5&weight=abc",
+	// metadata url.ParseQuery rejects as a whole (a `;`, a bad escape) although one pair in it would decode
+	"weight=0&tags=a;b", "note=%zz&weight=-3", "weight=0;x=1", "weight=-2&x=%", "tags=a;b&weight=4",
 }
 
 var geoMetas = []string{
